@@ -79,6 +79,18 @@ class BadStr(Exception):
         raise RuntimeError("str() of this exception raises")
 
 
+class _StrAbort(BaseException):
+    """what str() of BadStrBase raises: not an Exception subclass (like CancelledError / KeyboardInterrupt arriving inside __str__)"""
+
+
+class BadStrBase(Exception):
+    def __str__(self):
+        raise _StrAbort("str() of this exception raises a BaseException")
+
+    def __repr__(self):
+        raise asyncio.CancelledError()
+
+
 class FalsyExc(Exception):
     """An exception object that is false in a boolean context (e.g. an aggregate error with no sub-errors)."""
 
@@ -169,9 +181,9 @@ register_exception_extractor(ExtRaise, _raising_extractor)
 EXC_WITNESSES = [lambda: ValueError("boom"), lambda: KeyboardInterrupt(), lambda: GeneratorExit(),
                  lambda: asyncio.CancelledError(), lambda: BadStr(), lambda: SystemExit(3),
                  lambda: KeyError("k"), lambda: FalsyExc("falsy"), lambda: EmptyLenExc(), lambda: NoModuleExc("nomod"),
-                 lambda: EmptyStrBadRepr(), lambda: BadInit(1, 2), lambda: Exception()]
+                 lambda: EmptyStrBadRepr(), lambda: BadInit(1, 2), lambda: Exception(), lambda: BadStrBase()]
 DEST_ERRS = [lambda: DestErr("dest down"), lambda: DestErrBadStr(), lambda: TypeError("t"),
-             lambda: NoModuleExc("nomod"), lambda: FalsyExc("f"), lambda: BadStr()]
+             lambda: NoModuleExc("nomod"), lambda: FalsyExc("f"), lambda: BadStr(), lambda: BadStrBase()]
 
 
 class Env:
